@@ -52,3 +52,15 @@ Definition chk_chat (st : style) (tok : N) (mllama projcount : bool) (numctx : Z
 Definition chk_cand (st : style) (tok : N) (msgs : list msg) (prompts : list str) (counts : list N) : bool :=
   eqb_strs (map (fun k => render_style st (candidate msgs k)) (seq 0 (length msgs))) prompts
   && eqb_Ns (map (fun k => tok_count tok (render_style st (candidate msgs k))) (seq 0 (length msgs))) counts.
+
+(** POST /api/chat end to end (ChatHandler + chatPrompt, white-space tokenizer of the test mock, no projector):
+    what reaches the runner's Completion *)
+Definition chk_handler (st : style) (numctx : Z) (system : str) (model_msgs req : list msg)
+           (outcome : N) (prompt : str) (imgs : list (N * N)) : bool :=
+  let msgs := chat_msgs system model_msgs req in
+  match model_scan st 0 false false numctx msgs with
+  | Ok n => (outcome =? 0)
+            && eqb_str (render_style st (final_list false msgs n)) prompt
+            && eqb_imgs (final_images msgs n) imgs
+  | _ => negb (outcome =? 0)
+  end.
